@@ -14,7 +14,8 @@ REPO = os.environ.get("VERIF_REPO", "/repo")
 INCLUDE = os.path.join(REPO, "include")
 BUILD = os.path.join(VERIF, "build")
 OUT = os.path.join(VERIF, "out")
-EVIDENCE = os.path.join(VERIF, "evidence")
+# runs against a scratch tree (seed tests) must not overwrite the evidence of the real tree
+EVIDENCE = os.path.join(VERIF, "evidence" if "VERIF_REPO" not in os.environ else "out/evidence_scratch")
 NCPU = max(1, min(16, os.cpu_count() or 1))
 GUARD = "JLL63_YOMM2_VERIF"
 
